@@ -45,6 +45,24 @@ pub mod octets {
     pub open spec fn be16(hi: u8, lo: u8) -> u16 { (hi as u16 * 256 + lo as u16) as u16 }
     pub open spec fn u16_be(v: u16) -> Seq<u8> { seq![(v / 256) as u8, (v % 256) as u8] }
 
+    // what each get_* reads off the front of the unread remainder `s`: the value and what is left, None when `s` is too short
+    pub open spec fn p_u8(s: Seq<u8>) -> Option<(u8, Seq<u8>)> {
+        if s.len() >= 1 { Some((s[0], s.skip(1))) } else { None }
+    }
+    pub open spec fn p_u16(s: Seq<u8>) -> Option<(u16, Seq<u8>)> {
+        if s.len() >= 2 { Some((be16(s[0], s[1]), s.skip(2))) } else { None }
+    }
+    pub open spec fn p_var(s: Seq<u8>) -> Option<(u64, Seq<u8>)> {
+        match varint_dec(s) { Some((v, n)) => Some((v, s.skip(n as int))), None => None }
+    }
+    /// varint length prefix followed by that many bytes
+    pub open spec fn p_blob(s: Seq<u8>) -> Option<(Seq<u8>, Seq<u8>)> {
+        match varint_dec(s) {
+            Some((len, n)) => if n + len <= s.len() { Some((s.subrange(n as int, n + len), s.skip(n + len))) } else { None },
+            None => None,
+        }
+    }
+
     // ---- read cursor ----
     #[verifier::external_body]
     pub struct Octets<'a> { buf: &'a [u8], off: usize }
@@ -63,37 +81,33 @@ pub mod octets {
         #[verifier::external_body]
         pub fn get_u8(&mut self) -> (r: Result<u8, BufferTooShortError>)
             ensures final(self).total() == old(self).total(),
-                r is Ok <==> old(self).rest().len() >= 1,
-                r matches Ok(v) ==> v == old(self).rest()[0] && final(self).rest() == old(self).rest().skip(1),
+                r is Ok <==> p_u8(old(self).rest()) is Some,
+                r matches Ok(v) ==> p_u8(old(self).rest()) == Some((v, final(self).rest())),
                 r is Err ==> final(self).rest() == old(self).rest(),
         { unimplemented!() }
 
         #[verifier::external_body]
         pub fn get_u16(&mut self) -> (r: Result<u16, BufferTooShortError>)
             ensures final(self).total() == old(self).total(),
-                r is Ok <==> old(self).rest().len() >= 2,
-                r matches Ok(v) ==> v == be16(old(self).rest()[0], old(self).rest()[1]) && final(self).rest() == old(self).rest().skip(2),
+                r is Ok <==> p_u16(old(self).rest()) is Some,
+                r matches Ok(v) ==> p_u16(old(self).rest()) == Some((v, final(self).rest())),
                 r is Err ==> final(self).rest() == old(self).rest(),
         { unimplemented!() }
 
         #[verifier::external_body]
         pub fn get_varint(&mut self) -> (r: Result<u64, BufferTooShortError>)
             ensures final(self).total() == old(self).total(),
-                r is Ok <==> varint_dec(old(self).rest()) is Some,
-                r matches Ok(v) ==> (varint_dec(old(self).rest()) matches Some((v2, n)) && v2 == v && v < 0x4000_0000_0000_0000
-                    && 1 <= n <= old(self).rest().len() && final(self).rest() == old(self).rest().skip(n as int)),
+                r is Ok <==> p_var(old(self).rest()) is Some,
+                r matches Ok(v) ==> p_var(old(self).rest()) == Some((v, final(self).rest())) && v < 0x4000_0000_0000_0000,
                 r is Err ==> final(self).rest() == old(self).rest(),
         { unimplemented!() }
 
         #[verifier::external_body]
         pub fn get_bytes_with_varint_length(&mut self) -> (r: Result<Octets<'a>, BufferTooShortError>)
             ensures final(self).total() == old(self).total(),
-                r is Ok <==> (varint_dec(old(self).rest()) matches Some((len, n)) && n + len <= old(self).rest().len()),
-                r matches Ok(sub) ==> (varint_dec(old(self).rest()) matches Some((len, n)) && {
-                    &&& sub.rest() == old(self).rest().subrange(n as int, n + len)
-                    &&& sub.total() == len
-                    &&& final(self).rest() == old(self).rest().skip(n + len)
-                }),
+                r is Ok <==> p_blob(old(self).rest()) is Some,
+                r matches Ok(sub) ==> p_blob(old(self).rest()) == Some((sub.rest(), final(self).rest())) && sub.total() == sub.rest().len()
+                    && sub.rest().len() < 0x4000_0000_0000_0000,
         { unimplemented!() }
 
         #[verifier::external_body]
